@@ -100,7 +100,8 @@ enum Caps : unsigned {
   CAP_NONREL = 128,    // non-relational
   CAP_SLOW = 256,      // expensive: fewer runs in quick tier
   CAP_CORE = 512,      // part of the quick tier
-  CAP_FINITE = 1024    // finite-height lattice (no widening needed)
+  CAP_FINITE = 1024,   // finite-height lattice (no widening needed)
+  CAP_BV = 2048        // machine-integer (wrap-around) semantics: BV profile only
 };
 
 struct DomainInfo {
